@@ -223,6 +223,9 @@ func lockFlowRaw(fn *ssa.Function, entry LockSet) *funcLockInfo {
 		case "RLock":
 			if m, held := st.held[id]; held && m == modeW && record {
 				info.problems = append(info.problems, lockProblem{in.Pos(), "reacquire/" + id, "read lock " + id + " acquired while write lock held (self-deadlock)"})
+			} else if held && record {
+				// sync.RWMutex: a recursive RLock deadlocks as soon as a writer queues up between the two
+				info.problems = append(info.problems, lockProblem{in.Pos(), "recursive-rlock/" + id, "read lock " + id + " acquired while this goroutine already holds it for reading: with a writer waiting in between (every Put/Remove takes the write lock) both block forever — the collector, every caller and Close hang"})
 			}
 			if _, held := st.held[id]; !held {
 				st.held[id] = modeR
